@@ -18,6 +18,7 @@ import objtypes    # noqa: E402
 
 TABLE = 'T'
 DATA, REF, LOOKUP = 'D', 'R', '#lookup#'
+RLIST = 'L'                                 # a RefList data column (inlined into the model's ESumRows terms)
 FCOLS = ['A', 'B', 'C', 'F', 'G', 'H']
 KEYF = 'K'                                  # a formula column used only as a lookup key (lookup-free, reads $D)
 KEYCOLS = [DATA, KEYF]
@@ -52,6 +53,12 @@ def py_expr(a):
     return '%s.lookupOne(%s=%s).id' % (TABLE, a[1], py_expr(a[2]))
   if k == 'lsum':
     return 'sum(r.%s for r in %s.lookupRecords(%s=%s))' % (a[3], TABLE, a[1], py_expr(a[2]))
+  if k == 'sumL':        # ONE access requiring several rows of column X
+    return 'sum($%s.%s)' % (RLIST, a[1])
+  if k == 'sumM':
+    return 'sum(%s.lookupRecords(%s=%s).%s)' % (TABLE, a[1], py_expr(a[2]), a[3])
+  if k == 'ifid':
+    return '(%s if $id in (%s,) else %s)' % (py_expr(a[2]), ', '.join(str(x) for x in a[1]), py_expr(a[3]))
   raise ValueError(a)
 
 
@@ -64,8 +71,24 @@ def py_formula(a):
   return py_expr(a)
 
 
-def coq_expr(a):
+def coq_expr(a, env=None):
+  """env: {'L': {row: [rows]}} - the RefList column as it was at the start of the recorded loop."""
   k = a[0]
+  if k == 'sumL':
+    sets = ['(%s, %s)' % (core.zlit(r), core.zlist(l)) for r, l in sorted((env or {}).get('L', {}).items())]
+    return '(ESumRows %s %d)' % (core.coq_list(sets), COLID[a[1]])
+  if k == 'sumM':
+    return '(ESumMatched %d %s %d)' % (COLID[IDX[a[1]]], coq_expr(a[2], env), COLID[a[3]])
+  if k == 'ifid':
+    return '(EIfId %s %s %s)' % (core.zlist(a[1]), coq_expr(a[2], env), coq_expr(a[3], env))
+  if k in ('add', 'if'):
+    return '(%s %s)' % ({'add': 'EAdd', 'if': 'EIf'}[k], ' '.join(coq_expr(x, env) for x in a[1:]))
+  if k in ('try', 'tryo'):
+    return '(%s %s %s)' % ({'try': 'ETry', 'tryo': 'ETryOther'}[k], coq_expr(a[1], env), core.zlit(a[2]))
+  if k in ('cnt', 'one'):
+    return '(%s %d %s)' % ({'cnt': 'ECount', 'one': 'EOne'}[k], COLID[IDX[a[1]]], coq_expr(a[2], env))
+  if k == 'lsum':
+    return '(ESum %d %s %d)' % (COLID[IDX[a[1]]], coq_expr(a[2], env), COLID[a[3]])
   if k == 'c':
     return '(EConst %s)' % core.zlit(a[1])
   if k == 'col':
@@ -96,8 +119,10 @@ def mentions(a):
   k = a[0]
   if k in ('col', 'ref'):
     return {a[1]} if a[1] in FCOLS else set()
-  if k == 'lsum':
+  if k in ('lsum', 'sumM'):
     return ({a[3]} if a[3] in FCOLS else set()) | mentions(a[2])
+  if k == 'sumL':
+    return {a[1]} if a[1] in FCOLS else set()
   out = set()
   for x in a[1:]:
     if isinstance(x, tuple):
@@ -110,11 +135,17 @@ def has_try(a):
 
 
 def uses_key(a, key):
-  return (a[0] in ('cnt', 'one', 'lsum') and a[1] == key) or any(isinstance(x, tuple) and uses_key(x, key) for x in a[1:])
+  return (a[0] in ('cnt', 'one', 'lsum', 'sumM') and a[1] == key) or any(isinstance(x, tuple) and uses_key(x, key) for x in a[1:])
+
+
+def has_multi(a):
+  """Uses an access that requires several rows at once (two-phase read; outside the class the scratch check covers:
+  with an empty row list the engine requires a whole column whose values it never reads)."""
+  return a[0] in ('sumL', 'sumM') or any(isinstance(x, tuple) and has_multi(x) for x in a[1:])
 
 
 def has_lookup(a):
-  return a[0] in ('cnt', 'one', 'lsum') or any(isinstance(x, tuple) and has_lookup(x) for x in a[1:])
+  return a[0] in ('cnt', 'one', 'lsum', 'sumM') or any(isinstance(x, tuple) and has_lookup(x) for x in a[1:])
 
 
 def has_ref(a):
@@ -131,8 +162,15 @@ def gen_lookup(rng, cols, keys):
   return (kind, key, arg)
 
 
+MULTI = [False]     # set by gen_program: also generate accesses that require several rows at once
+
+
 def gen_expr(rng, cols, depth=2, allow_ref=True, allow_err=True, keys=()):
   """A random expression over the formula columns `cols` and the data column (`keys`: lookup key columns)."""
+  if MULTI[0] and cols and rng.random() < 0.3:
+    if keys and rng.random() < 0.4:
+      return ('sumM', rng.choice(list(keys)), rng.choice([('col', DATA), ('c', rng.choice([0, 1, 2]))]), rng.choice(cols))
+    return ('sumL', rng.choice(cols))
   if keys and rng.random() < 0.3:
     return gen_lookup(rng, cols, list(keys))
   r = rng.random()
@@ -155,7 +193,7 @@ def gen_expr(rng, cols, depth=2, allow_ref=True, allow_err=True, keys=()):
           gen_expr(rng, cols, depth - 1, allow_ref, allow_err, keys))
 
 
-def gen_program(rng, ncols=None, p_try=0.0, allow_ref=True, p_tryo=0.0, p_lookup=0.0):
+def gen_program(rng, ncols=None, p_try=0.0, allow_ref=True, p_tryo=0.0, p_lookup=0.0, p_multi=0.0):
   """{col: ast} over 1..5 formula columns; cycles are allowed (any column may mention any column).  With
   probability p_lookup the document uses lookups: keyed on the data column or on the extra formula column K, whose
   own formula reads only $D (so no column is the key of its own lookup: that is the known C18 finding)."""
@@ -163,6 +201,7 @@ def gen_program(rng, ncols=None, p_try=0.0, allow_ref=True, p_tryo=0.0, p_lookup
   cols = FCOLS[:n]
   prog = collections.OrderedDict()
   keys = ()
+  MULTI[0] = rng.random() < p_multi
   if rng.random() < p_lookup:
     keys = rng.choice([(DATA,), (DATA, KEYF), (KEYF,)])
     if KEYF in keys:
@@ -175,26 +214,39 @@ def gen_program(rng, ncols=None, p_try=0.0, allow_ref=True, p_tryo=0.0, p_lookup
       # whether there is a cycle depends on the data (locked cells meet opportunistic evaluation of their own column)
       a = ('if', ('col', DATA), ('add', ('ref', rng.choice([c, c, rng.choice(cols)])), ('c', 1)),
            rng.choice([('c', 0), ('col', DATA), a]))
+    if MULTI[0] and rng.random() < 0.5:
+      # row-dependent formula: cycles / chains through SOME rows of the column
+      a = ('ifid', sorted(rng.sample([1, 2, 3], rng.choice([1, 2]))), a, rng.choice([('col', DATA), ('c', 1)]))
     if rng.random() < p_try:
       a = ('try', a, rng.choice([7, 0, -3]))
     elif rng.random() < p_tryo:
       a = ('tryo', a, rng.choice([7, 0, -3]))
     prog[c] = a
+  MULTI[0] = False
   return prog
 
 
 # ---- documents ----------------------------------------------------------------------------------------
 
 def table_action(prog):
-  cols = [{'id': DATA, 'type': 'Int', 'isFormula': False}, {'id': REF, 'type': 'Ref:' + TABLE, 'isFormula': False}]
+  cols = [{'id': DATA, 'type': 'Int', 'isFormula': False}, {'id': REF, 'type': 'Ref:' + TABLE, 'isFormula': False},
+          {'id': RLIST, 'type': 'RefList:' + TABLE, 'isFormula': False}]
   for c, a in prog.items():
     cols.append({'id': c, 'type': 'Any', 'isFormula': True, 'formula': py_formula(a)})
   return ['AddTable', TABLE, cols]
 
 
+def reflist_of(i, n, d, r):
+  """The (never empty, not sorted) RefList of row i, a fixed function of the row's other values."""
+  l = [r] + [j for j in range(1, n + 1) if j != r and (j * 3 + d + i) % 2 == 0]
+  return l[::-1] if d % 2 else l
+
+
 def rows_action(dvals, rvals):
   n = len(dvals)
-  return ['BulkAddRecord', TABLE, [None] * n, {DATA: list(dvals), REF: list(rvals)}]
+  return ['BulkAddRecord', TABLE, [None] * n,
+          {DATA: list(dvals), REF: list(rvals),
+           RLIST: [['L'] + reflist_of(i + 1, n, dvals[i], rvals[i]) for i in range(n)]}]
 
 
 def gen_rows(rng, n):
@@ -207,8 +259,10 @@ def gen_edit(rng, e, prog):
   r = rng.random()
   if r < 0.35 and rows:
     return [['UpdateRecord', TABLE, rng.choice(rows), {DATA: rng.choice([0, 1, 2, 3, -1, 4])}]]
-  if r < 0.55 and rows:
+  if r < 0.45 and rows:
     return [['UpdateRecord', TABLE, rng.choice(rows), {REF: rng.choice(rows)}]]
+  if r < 0.55 and rows:
+    return [['UpdateRecord', TABLE, rng.choice(rows), {RLIST: ['L'] + rng.sample(rows, rng.randint(1, len(rows)))}]]
   if r < 0.8:
     fcols = [x for x in prog if x != KEYF]
     c = rng.choice(fcols)
@@ -219,7 +273,8 @@ def gen_edit(rng, e, prog):
     prog[c] = a
     return [['ModifyColumn', TABLE, c, {'formula': py_formula(a)}]]
   if r < 0.9 or len(rows) <= 1:
-    return [['AddRecord', TABLE, None, {DATA: rng.choice([0, 1, 2]), REF: rng.choice(rows or [1])}]]
+    return [['AddRecord', TABLE, None, {DATA: rng.choice([0, 1, 2]), REF: rng.choice(rows or [1]),
+                                        RLIST: ['L'] + rng.sample(rows or [1], rng.randint(1, max(1, len(rows))))}]]
   return [['UpdateRecord', TABLE, rows[0], {DATA: 9}], ['UpdateRecord', TABLE, rows[-1], {REF: rows[0]}]]
 
 
@@ -238,6 +293,7 @@ class Loop(object):
     self.finals = {}
     self.bad = None       # reason the loop is outside the modelled fragment
     self.order = []       # processing order of the nodes as produced by _make_sorted_work_items
+    self.reflists = {}    # row -> rows listed in the RefList column at the start of the loop
     self.edges = []       # node-level edges (dependent col, read col) of the dependency graph after the loop
 
 
@@ -321,6 +377,9 @@ def attach(e, priority=None):
       for r in sorted(t.row_ids):
         lp.vals0[(c, r)] = col.raw_get(r)
     lp.vals0.update(index_values(e))
+    if RLIST in t.all_columns:
+      for r in sorted(t.row_ids):
+        lp.reflists[r] = [int(x) for x in (t.get_column(RLIST).raw_get(r) or [])]
     for node in e.recompute_map:
       if node.table_id == TABLE and node.col_id not in COLID:
         lp.bad = 'node %s outside the modelled columns' % (node,)
@@ -540,7 +599,8 @@ def coq_case(lp, prog):
       its.append('TI %s' % core.coq_list([coq_cell(c) for c in it[1]]))
     else:
       its.append('TS %s %s' % (core.coq_list([coq_cell(c) for c in it[1]]), core.coq_list([coq_cell(c) for c in it[2]])))
-  cols = ['(%d, %s)' % (COLID[c], coq_expr(a)) for c, a in prog.items()] + ['(%d, EConst 0%%Z)' % COLID[LOOKUP]]
+  env = {'L': lp.reflists}
+  cols = ['(%d, %s)' % (COLID[c], coq_expr(a, env)) for c, a in prog.items()] + ['(%d, EConst 0%%Z)' % COLID[LOOKUP]]
   # the index node of a key column: the cell of row r holds the key of row r (formula: read the key column)
   cols += ['(%d, (ECol %d))' % (COLID[IDX[k]], COLID[k]) for k in KEYCOLS]
   seen, order = set(), []
